@@ -67,21 +67,46 @@ def run(ctx):
 RPC_WAIT_OK = ("Mutex::lock", "ClientMsg::send", "Request::send")
 
 
+def rpc_helpers(fx):
+    """Private async helpers of Session::rpc (a `send_and_register` it awaits): [(fn name, user coroutine body)], transitively; recv is
+    not one of them (it is the reply future)."""
+    b = fx.user_coroutine(SESSION + "::rpc")
+    out, seen, work = [], set(), [b]
+    while work:
+        body = work.pop()
+        for c in body.calls():
+            tgt = None if c.macro else (c.rdef if (c.rdef or "").startswith(SESSION + "::") else c.defn if (c.defn or "").startswith(SESSION + "::") else None)
+            if tgt is None or "::{closure" in tgt or tgt in seen or tgt in (SESSION + "::rpc", SESSION + "::recv"):
+                continue
+            seen.add(tgt)
+            try:
+                hb = fx.user_coroutine(tgt)
+            except F.AnchorLost:
+                continue
+            out.append((tgt, hb))
+            work.append(hb)
+    return out
+
+
 def r8_rpc_waits(chk, fx):
     """'However many requests are outstanding, no caller is left waiting forever': issuing a request waits for the two locks (held
     only for a bounded piece of work) and for the transport to take the bytes — for nothing whose release depends on *other callers'*
     reply futures being polled (a permit, a quota, a queue slot, a timer).  Who-may-wait rule over the suspension points of
     Session::rpc and of every async block it returns (the reply future's own waits are Session::recv's: C07/R4)."""
     b = fx.user_coroutine(SESSION + "::rpc")
-    bodies = [b] + [x for n, x in sorted(fx.mir.items()) if n.startswith(b.name + "::{closure#") and x.coroutine]
+    helpers = rpc_helpers(fx)
+    bodies = [b] + [x for n, x in sorted(fx.mir.items()) if n.startswith(b.name + "::{closure#") and x.coroutine] + [hb for (_, hb) in helpers]
+    followed = {T.short(T.strip_generics(h), 2) for (h, _) in helpers}
     n = 0
     for body in bodies:
         chk.analysed(body.name)
         for a in body.await_points():
-            n += 1
             src = a.get("src")
             what = src.name() if src is not None else ("a future of type %s" % (body.local_ty(F.op_base(a["poll"].args[0])) if a.get("poll") else "?"))
             short = T.short(T.strip_generics(what), 2)
+            if short in followed:
+                continue          # an async helper of rpc: its own suspension points are in the list
+            n += 1
             ok = src is not None and (short in RPC_WAIT_OK or (body is not b and short == "Session::recv"))
             chk.instance("C05/R8", "Session::rpc waits for %s" % short, body.name, src.loc() if src is not None else loc_of(a.get("sp")), holds=ok,
                          key="C05/R8 Session::rpc unaudited-wait %s" % short,
@@ -126,6 +151,10 @@ def r1_freshness(chk, fx):
     # the counter moves on *before* the request can reach the wire: whatever happens to this call afterwards (failed or abandoned
     # send, cancelled future), the id is never handed out again
     sends0 = b.calls_to("ClientMsg::send", user_only=True)
+    sending_helpers = [(h, hb) for (h, hb) in rpc_helpers(fx) if hb.calls_to("ClientMsg::send", user_only=True)]
+    if not sends0:
+        # the send lives in an async helper rpc awaits: the helper's call site stands for it
+        sends0 = [c for c in b.calls() if not c.macro and any(c.rdef == h or c.defn == h for (h, _) in sending_helpers)]
     writes = []
     for bi, bl in enumerate(b.blocks):
         if bl.get("cleanup"):
@@ -191,8 +220,20 @@ def r1_freshness(chk, fx):
             raise F.AnchorLost("Session::rpc: recv() call site")
     elif len(rcv) != 1:
         raise F.AnchorLost("Session::rpc: recv() call site")
-    chk.instance("C05/R1", "the request is registered in the outstanding-request map", b.name, None, holds=len(ent) >= 1,
+    ent_h = []
+    if not ent:
+        for (h, hb) in sending_helpers:
+            for e in hb.calls_to("HashMap::<K, V, S>::entry", "HashMap::<K, V, S, A>::entry", "HashMap::<K, V, S>::insert", "HashMap::<K, V, S, A>::insert", user_only=True):
+                # the key is the helper's own parameter (a field of its coroutine state), and rpc hands the fresh id to the helper
+                o2 = hb.backward_origins(F.op_base(e.args[1]), through_call=lambda c: False)
+                from_param = bool(o2) and all(o["k"] in ("place", "arg", "resume") for o in o2)
+                handed = any(F.op_base(a) in mid for c in b.calls() if not c.macro and (c.rdef == h or c.defn == h) for a in c.args)
+                ent_h.append((hb, e, from_param and handed))
+    chk.instance("C05/R1", "the request is registered in the outstanding-request map", b.name, None, holds=len(ent) + len(ent_h) >= 1,
                  key="C05/R1 rpc not-registered")
+    for (hb, e, ok) in ent_h:
+        chk.instance("C05/R1", "the request is registered (in %s) under the id rpc hands over" % T.short(T.strip_generics(hb.name), 2), hb.name, e.loc(), holds=ok,
+                     key="C05/R1 rpc registered-id")
     for e in ent:
         chk.instance("C05/R1", "the request is registered under its own id", b.name, e.loc(), holds=F.op_base(e.args[1]) in mid,
                      key="C05/R1 rpc registered-id")
@@ -361,7 +402,7 @@ def r2_own_slot(chk, fx):
                       "HashMap::<K, V, S, A>::remove", "HashMap::<K, V, S>::remove", "HashMap::<K, V, S, A>::clear")]
     for c in ins:
         owner = [n for n, bb in fx.mir.items() if c in bb.calls()]
-        ok = bool(owner) and owner[0].startswith(SESSION + "::rpc::")
+        ok = bool(owner) and (owner[0].startswith(SESSION + "::rpc::") or any(owner[0].startswith(h + "::") for (h, _) in rpc_helpers(fx)))
         chk.instance("C05/R2", "slots are inserted only by Session::rpc (VacantEntry::insert)", owner[0] if owner else "?", c.loc(),
                      holds=ok, key="C05/R2 slot-inserted-in %s" % T.strip_generics(owner[0] if owner else "?"))
 
@@ -505,8 +546,16 @@ def r4_r5_locks(chk, fx):
                 rx_at_read = set(held_guards(b, init_in[ap["yield"]]).get("rx", []))
                 chk.instance("C05/R5", "the receive lock taken before the slot check is the one held while reading", b.name, loc_of(ap["sp"]),
                              holds=bool(rx_at_check & rx_at_read), key="C05/R5 Session::recv rx-lock-reacquired-between-check-and-read")
-    # R4: registration atomicity in rpc
-    b = fx.user_coroutine(SESSION + "::rpc")
+    # R4: registration atomicity in rpc (or in the async helper of rpc that sends and registers)
+    rpc_b = fx.user_coroutine(SESSION + "::rpc")
+    b = rpc_b
+    hcalls = []
+    if not b.calls_to("ClientMsg::send", user_only=True):
+        for (h, hb) in rpc_helpers(fx):
+            if hb.calls_to("ClientMsg::send", user_only=True):
+                hcalls = [c for c in rpc_b.calls() if not c.macro and (c.rdef == h or c.defn == h)]
+                b = hb
+                break
     init_in, _ = b.maybe_init()
     send = b.calls_to("ClientMsg::send", user_only=True)
     ins = b.calls_to("VacantEntry::<'a, K, V, A>::insert", "VacantEntry::<'a, K, V>::insert", "HashMap::<K, V, S>::insert",
@@ -536,6 +585,14 @@ def r4_r5_locks(chk, fx):
     ok = any(x["k"] == "agg" and x["rv"].get("variant") == "Pending" for x in o)
     chk.instance("C05/R4", "the registered state is Pending", b.name, ins[0].loc(), holds=ok, key="C05/R4 Session::rpc registered-state")
     # the reply future is handed out only after registration
+    if b is not rpc_b:
+        # registration happens in the helper: in rpc the reply future is created only after the helper returned Ok
+        rc = [(c.bb, c.loc()) for c in rpc_b.calls_to(SESSION + "::recv", user_only=True)]
+        if not rc or len(hcalls) != 1:
+            raise F.AnchorLost("Session::rpc: recv() call site / helper call")
+        chk.instance("C05/R4", "the reply future is created only after registration (the helper that registers returned Ok)", rpc_b.name, rc[0][1],
+                     holds=rpc_b.ok_dominates(hcalls[0], rc[0][0]), key="C05/R4 Session::rpc recv-before-register")
+        return
     rcvs = [(c.bb, c.loc()) for c in b.calls_to(SESSION + "::recv", user_only=True)]
     if not rcvs:
         # .. or the async block that will call recv is built after it
